@@ -12,8 +12,9 @@ Bound     all choice sequences with at most D deviations from the default regime
 Options   nb_of_processes in {1, 2, 3, None}: for every value but 1 the engine takes its multiprocessing branch
           (pool.map_async + callback); the pool is mlmc_driver.SimulatedPool (workers = per-chunk dill copies of the task,
           results in index order, one callback in the parent). Subs "adaptive-pool" / "fixed-pool": every configuration of
-          the one-deviation lattice with 2 processes, a stated sub-lattice with None (and 3 in thorough), the fixed-level
-          variant with 2 and None.
+          the quick lattice (both tiers) with one deviation and 2 processes, its sub-lattice {no cv, scalar, rmse 0.5, N0 5,
+          rates given} with None (and 3 in thorough), in thorough the two deep configurations with two deviations; the
+          fixed-level variant with 2 and None.
 Oracle    reference model = plain list of (fine, coarse) per level appended at every simulate call. After every
           set_mlmc_results and at return: Nl[l] == len(ref[l]); the rows of level l's payoff array are exactly the
           discounted notional-scaled payoffs of ref[l], in order (no placeholder row, nothing missing / duplicated /
@@ -28,7 +29,7 @@ histories   (a) every run: the returned results object is read in the canonical 
             (b) every run: a second results object of the run (set_mlmc_results again, what the engine does before
                 returning) is left unread and read - scripts' order: consistency_check first - only after the NEXT run of
                 the case has been priced and read (another engine / statistics / results object used in between);
-            (c) first run of every case: all 30 ordered pairs (q1, q2) of the six moment-based quantities read first, the
+            (c) first run of every case (first shard, no control variates): all 30 ordered pairs (q1, q2) of the six moment-based quantities read first, the
                 rest after in canonical order, each on a fresh results object;
             (d) subs "*-orders": all 720 orders of the six quantities, for three configurations (adaptive with late
                 levels, fixed-level, adaptive through the pool), sharded by the first quantity.
@@ -306,7 +307,7 @@ def compare_state(sh, case, rec, stats, Nl, sum_cost, where, variant, final=None
                          {"Nl": Nl.tolist(), "regimes": rec.regime_log})
     except Exception as e:  # noqa
         sh.violation(f"C05:{variant}:price-raises:{type(e).__name__}", f"{tag}: {e!r}", None)
-    # the derived statistics, against the library's own moment functions applied to the reference lists
+    # the derived statistics, against plain numpy statistics of the reference lists
     res = stats.mlmc_results
     if res is not None and case["cv"] == "none" and all(f.size for f in ref_fine) and where != "return":
         # cheap intermediate comparison of the two quantities that steer the loop (numpy formulas, rtol 1e-9)
@@ -555,9 +556,12 @@ def run_once(sh, case, chooser):
     if stats is not None:
         with np.errstate(all="ignore"), warnings.catch_warnings():
             warnings.simplefilter("ignore")
-            final = {"stats": stats, "variant": variant, "Nl": last.get("Nl"), "sum_cost": last.get("sum_cost"),
-                     "regimes": rec.regime_log}
             Nl_final = np.asarray(stats.mlmc_results.Nl)
+            if "Nl" not in last:  # the engine did not go through set_mlmc_results: the reference counts and costs
+                last["Nl"] = np.array(Nl_final, copy=True)
+                last["sum_cost"] = np.array([float(2 ** l) * len(rec.samples.get(l, [])) for l in range(len(Nl_final))])
+            final = {"stats": stats, "variant": variant, "Nl": last["Nl"], "sum_cost": last["sum_cost"],
+                     "regimes": rec.regime_log}
             compare_state(sh, case, rec, stats, Nl_final, None, "return", variant, final)
     return tuple(traj), outcome, rec, final
 
